@@ -190,6 +190,9 @@ func (d *Descriptor) isValidJSONMapEntry() bool {
 }
 
 func (d *Descriptor) readAsSlice(out Outputter, data []byte) (n int, err error) {
+	if len(d.Elements) == 0 {
+		return 0, fmt.Errorf("slice descriptor %s has no element description", d.Name)
+	}
 	elt := &d.Elements[0]
 	switch elt.Type {
 	case FieldTypeFloat32, FieldTypeFloat64, FieldTypeInt, FieldTypeUint:
@@ -200,6 +203,9 @@ func (d *Descriptor) readAsSlice(out Outputter, data []byte) (n int, err error) 
 			n, err := elt.read(out, data[offset:])
 			if err != nil {
 				return 0, err
+			}
+			if n <= 0 {
+				return 0, fmt.Errorf("corrupt data reading slice entry at offset %d", offset)
 			}
 			offset += n
 		}
@@ -223,8 +229,7 @@ func (d *Descriptor) readAsSlice(out Outputter, data []byte) (n int, err error) 
 			if s == 0 {
 				continue
 			}
-			end := offset + int(s)
-			if end > len(data) {
+			if s > uint64(len(data)-offset) {
 				return 0, fmt.Errorf("corrupt data reading slice entry %d", i)
 			}
 
@@ -254,6 +259,9 @@ func (d *Descriptor) readAsMapEntry(out Outputter, data []byte) (n int, err erro
 	var offset int
 	for offset < l {
 		wt, index, n := plenccore.ReadTag(data[offset:])
+		if n <= 0 {
+			return 0, fmt.Errorf("invalid tag at offset %d in %s", offset, d.Name)
+		}
 		offset += n
 
 		var elt *Descriptor
@@ -284,10 +292,10 @@ func (d *Descriptor) readAsMapEntry(out Outputter, data []byte) (n int, err erro
 				return 0, fmt.Errorf("varuint overflow reading field %d of %s", index, d.Name)
 			}
 			offset += n
-			fl = int(v) + offset
-			if fl > l {
-				return 0, fmt.Errorf("length %d of field %d of %s exceeds data length", fl, index, d.Name)
+			if v > uint64(l-offset) {
+				return 0, fmt.Errorf("length %d of field %d of %s exceeds data length", v, index, d.Name)
 			}
+			fl = int(v) + offset
 		}
 
 		n, err := elt.read(out, data[offset:fl])
@@ -306,6 +314,9 @@ func (d *Descriptor) readAsStruct(out Outputter, data []byte) (n int, err error)
 	var offset int
 	for offset < l {
 		wt, index, n := plenccore.ReadTag(data[offset:])
+		if n <= 0 {
+			return 0, fmt.Errorf("invalid tag at offset %d in %s", offset, d.Name)
+		}
 		offset += n
 
 		var elt *Descriptor
@@ -336,10 +347,10 @@ func (d *Descriptor) readAsStruct(out Outputter, data []byte) (n int, err error)
 				return 0, fmt.Errorf("varuint overflow reading field %d of %s", index, d.Name)
 			}
 			offset += n
-			fl = int(v) + offset
-			if fl > l {
-				return 0, fmt.Errorf("length %d of field %d of %s exceeds data length", fl, index, d.Name)
+			if v > uint64(l-offset) {
+				return 0, fmt.Errorf("length %d of field %d of %s exceeds data length", v, index, d.Name)
 			}
+			fl = int(v) + offset
 		}
 
 		out.NameField(elt.Name)
@@ -358,7 +369,7 @@ func (d *Descriptor) readAsStruct(out Outputter, data []byte) (n int, err error)
 // case the name is omitted from each entry
 func (d *Descriptor) readAsJSON(out Outputter, data []byte) (n int, err error) {
 	count, n := plenccore.ReadVarUint(data)
-	if n < 0 {
+	if n < 0 || (n == 0 && len(data) != 0) {
 		return 0, fmt.Errorf("corrupt data looking for WTSlice count")
 	}
 	offset := n
@@ -371,6 +382,9 @@ func (d *Descriptor) readAsJSON(out Outputter, data []byte) (n int, err error) {
 		offset += n
 		if s == 0 {
 			continue
+		}
+		if s > uint64(len(data)-offset) {
+			return 0, fmt.Errorf("corrupt data reading JSON entry %d", i)
 		}
 
 		n, err := d.readJSONObjectKV(out, data[offset:offset+int(s)])
@@ -391,12 +405,15 @@ func (d *Descriptor) readJSONObjectKV(out Outputter, data []byte) (n int, err er
 
 	for offset < len(data) {
 		wt, index, n := plenccore.ReadTag(data[offset:])
+		if n <= 0 {
+			return 0, fmt.Errorf("bad tag in JSON entry")
+		}
 		offset += n
 		switch index {
 		case 1:
 			// When using this for reading arrays we simply don't see this index
 			l, n := plenccore.ReadVarUint(data[offset:])
-			if n < 0 {
+			if n <= 0 || l > uint64(len(data)-offset-n) {
 				return 0, fmt.Errorf("bad length on string field")
 			}
 			offset += n
@@ -410,7 +427,7 @@ func (d *Descriptor) readJSONObjectKV(out Outputter, data []byte) (n int, err er
 			offset += n
 		case 2:
 			v, n := plenccore.ReadVarUint(data[offset:])
-			if n < 0 {
+			if n <= 0 {
 				return 0, fmt.Errorf("invalid map type field")
 			}
 			jType = jsonType(v)
@@ -419,7 +436,7 @@ func (d *Descriptor) readJSONObjectKV(out Outputter, data []byte) (n int, err er
 			switch jType {
 			case jsonTypeString:
 				l, n := plenccore.ReadVarUint(data[offset:])
-				if n < 0 {
+				if n <= 0 || l > uint64(len(data)-offset-n) {
 					return 0, fmt.Errorf("bad length on string field")
 				}
 				offset += n
@@ -476,7 +493,7 @@ func (d *Descriptor) readJSONObjectKV(out Outputter, data []byte) (n int, err er
 
 			case jsonTypeNumber:
 				l, n := plenccore.ReadVarUint(data[offset:])
-				if n < 0 {
+				if n <= 0 || l > uint64(len(data)-offset-n) {
 					return 0, fmt.Errorf("bad length on JSON number field")
 				}
 				offset += n
